@@ -956,7 +956,7 @@ impl<'a> ActiveFileSet<'a> {
                 continue;
             };
 
-            if file_name.starts_with(&file_prefix) && file_name.ends_with(&file_ext) {
+            if is_file_set_member(file_name, file_prefix, file_ext) {
                 file_set.push(file_name.to_owned());
             }
         }
@@ -1188,6 +1188,32 @@ fn read_file_path_ts(path: &Path) -> Result<&str, io::Error> {
         .ok_or_else(|| io::Error::new(io::ErrorKind::Other, "file names must be valid UTF8"))?;
 
     read_file_name_ts(file_name)
+}
+
+// Whether `file_name` is exactly `{prefix}.{ts}.{counter}.{id}.{ext}`
+fn is_file_set_member(file_name: &str, file_prefix: &str, file_ext: &str) -> bool {
+    let Some(rest) = file_name
+        .strip_prefix(file_prefix)
+        .and_then(|rest| rest.strip_prefix('.'))
+        .and_then(|rest| rest.strip_suffix(file_ext))
+        .and_then(|rest| rest.strip_suffix('.'))
+    else {
+        return false;
+    };
+
+    let mut parts = rest.split('.');
+
+    match (parts.next(), parts.next(), parts.next(), parts.next()) {
+        (Some(ts), Some(counter), Some(id), None) => {
+            !ts.is_empty()
+                && ts.bytes().all(|b| b.is_ascii_digit() || b == b'-')
+                && counter.len() == 8
+                && counter.bytes().all(|b| b.is_ascii_digit())
+                && id.len() == 8
+                && id.bytes().all(|b| b.is_ascii_hexdigit())
+        }
+        _ => false,
+    }
 }
 
 fn file_name(file_prefix: &str, file_ext: &str, ts: &str, id: &str) -> String {
